@@ -1,7 +1,7 @@
 """Property registry: which contract modules serve which property, and what
 each claim leaves unverified (text copied into every evidence file)."""
 
-ALL_MODULES = ["contracts.c17", "contracts.c12", "contracts.c13", "contracts.c18", "contracts.c09", "contracts.c05", "contracts.c16", "contracts.c04", "contracts.c02", "contracts.c11", "contracts.c19"]
+ALL_MODULES = ["contracts.c17", "contracts.c12", "contracts.c13", "contracts.c18", "contracts.c09", "contracts.c05", "contracts.c16", "contracts.c04", "contracts.c02", "contracts.c11", "contracts.c19", "contracts.c03"]
 
 SPECS = {
     "C17": {
@@ -80,5 +80,12 @@ SPECS = {
         "level_note": "Trusted: one-cell model of jax.config (no jax.enable_x64 context override active around the call: see known finding D18 in DESIGN.md), numpy dtype lattice tabulated at run time. Constant promotion (bind_const_for_var, _promote_float_array, ir_postprocess) is not under contract in this revision.",
         "design_ref": "DESIGN.md §4.9",
         "unverified_part": "constant promotion/downcast functions, a float32 detour inside a plugin lowering, the whole-model 'no DOUBLE tensor anywhere' scan, user_interface.to_onnx's outer _temporary_x64 scope.",
+    },
+    "C03": {
+        "modules": ALL_MODULES,
+        "level_text": "Partial claim. Proved per function: IRBuilder.fresh_name / IRContext.fresh_name return base + '_' + counter, bump exactly that counter and touch no other (with the lemma that base_counter is injective, so names issued by one context never repeat); FunctionPlugin._allocate_friendly_name issues namespace.base.<next index>, stores the counter in the dict object kept on the context and reuses that object (distinct indices give distinct identifiers: lemma), and the child scope of a new function body receives the parent's counter dict itself; _attach_ir_functions leaves the default domain and the domain of every attached function imported (loop invariants, any number of functions); assert_eqn_outputs_bound (shared with C16): every non-drop outvar bound and connected; _value_escapes (shared with C02). IRContext.fresh_name carries the precondition 'base does not end in _ or /' (latent finding D12): all 2473 literal call sites are checked, 370 run-time bases are an assumption.",
+        "level_note": "Trusted: onnx_ir's NameFixPass for SSA uniqueness of the final model, onnx.checker / strict shape inference / ONNX Runtime loading (external programs), scoping of Loop/If captures built by the control-flow plugins. The counter-sharing obligation in _lower_and_call is structural (AST data flow), not a solver proof.",
+        "design_ref": "DESIGN.md §4.3",
+        "unverified_part": "whole-model well-formedness (checker, strict inference, ORT), make_subgraph_context prefixes, _handle_initializer_append in function mode, FunctionScope.to_ir_function imports, Loop/If capture scoping.",
     },
 }
